@@ -152,6 +152,160 @@ theorem dft_read_succeeds (c : StageCfg) (s : StageSt) (hL : 0 < c.L) (hgo : s.c
   have := (Nat.div_lt_iff_lt_mul hL).mpr h
   omega
 
+/-! ### the state invariant `clk < den` over every reachable pipeline state -/
+
+/-- the clauses of `PlanWF` the clocked-kernel theorems use, with the state invariant `clk < den`. -/
+def ClkOK (x : Stage) : Prop :=
+  x.cfg.kind = Kind.clocked →
+    0 < x.cfg.den ∧ 0 < x.cfg.step ∧ x.cfg.step ≤ (x.cfg.prePost + 1) * x.cfg.den ∧ x.st.clk < x.cfg.den
+
+theorem ClkOK_addOcc {x : Stage} (h : ClkOK x) (n : Nat) : ClkOK (x.addOcc n) := h
+
+theorem ClkOK_run {x : Stage} (h : ClkOK x) : ClkOK x.run.1 := by
+  intro hk
+  have hk' : x.cfg.kind = Kind.clocked := hk
+  obtain ⟨h1, h2, h3, h4⟩ := h hk'
+  refine ⟨h1, h2, h3, ?_⟩
+  show (stageFn x.cfg x.st).1.clk < x.cfg.den
+  unfold stageFn
+  rw [hk']
+  exact (clocked_state x.cfg x.st h1 h2 h3 h4).2
+
+theorem sp_ClkOK (fl : Bool) : ∀ (fuel : Nat) (stages : List Stage) (d : Bool) (stages' : List Stage) (prod : Nat) (d' : Bool),
+    (∀ x ∈ stages, ClkOK x) → sp fl fuel stages d = some (stages', prod, d') → ∀ x ∈ stages', ClkOK x := by
+  intro fuel
+  induction fuel with
+  | zero => intro stages d stages' prod d' _ h; simp [sp] at h
+  | succ k ih =>
+    intro stages d stages' prod d' hall h
+    cases stages with
+    | nil => simp [sp] at h
+    | cons x below =>
+      have hx : ClkOK x := hall x (by simp)
+      have hb : ∀ y ∈ below, ClkOK y := fun y hy => hall y (by simp [hy])
+      unfold sp at h
+      split at h
+      · cases below with
+        | nil =>
+          simp only at h
+          split at h
+          · exact ih _ _ _ _ _ (by intro y hy; simp at hy; subst hy; exact ClkOK_addOcc hx _) h
+          · exact ih _ _ _ _ _ (by intro y hy; simp at hy; subst hy; exact hx) h
+        | cons y rest =>
+          simp only at h
+          split at h
+          · simp at h
+          · next below' prod1 d1 hsp =>
+            have hb' := ih _ _ _ _ _ hb hsp
+            refine ih _ _ _ _ _ ?_ h
+            intro z hz
+            simp only [List.mem_cons] at hz
+            rcases hz with rfl | hz
+            · exact ClkOK_addOcc hx _
+            · exact hb' z hz
+      · simp only [Option.some.injEq, Prod.mk.injEq] at h
+        obtain ⟨rfl, _, _⟩ := h
+        intro z hz
+        simp only [List.mem_cons] at hz
+        rcases hz with rfl | hz
+        · exact ClkOK_run hx
+        · exact hb z hz
+
+theorem procLoop_ClkOK (fuel : Nat) : ∀ (k : Nat) (e : Eng) (n : Int) (d : Bool) (e' : Eng),
+    (∀ x ∈ e.stages, ClkOK x) → procLoop fuel k e n d = some e' → ∀ x ∈ e'.stages, ClkOK x := by
+  intro k
+  induction k with
+  | zero => intro e n d e' _ h; simp [procLoop] at h
+  | succ j ih =>
+    intro e n d e' hall h
+    unfold procLoop at h
+    split at h
+    · split at h
+      · exact ih _ _ _ _ hall h
+      · split at h
+        · simp at h
+        · next st' prod d1 hsp =>
+          refine ih _ _ _ _ ?_ h
+          exact sp_ClkOK e.fl fuel _ _ _ _ _ hall hsp
+    · simp only [Option.some.injEq] at h
+      subst h
+      exact hall
+
+theorem addFirst_ClkOK : ∀ (l : List Stage) (n : Nat), (∀ x ∈ l, ClkOK x) → ∀ x ∈ addFirst l n, ClkOK x := by
+  intro l
+  induction l with
+  | nil => intro n _ x hx; simp [addFirst] at hx
+  | cons a t ih =>
+    intro n hall x hx
+    cases t with
+    | nil =>
+      simp only [addFirst, List.mem_cons, List.not_mem_nil, or_false] at hx
+      subst hx
+      exact ClkOK_addOcc (hall a (by simp)) n
+    | cons b r =>
+      simp only [addFirst, List.mem_cons] at hx
+      rcases hx with rfl | hx
+      · exact hall _ (by simp)
+      · exact ih n (fun y hy => hall y (by simp [hy])) x (by simpa using hx)
+
+/-- the engine-level invariant and its preservation by the four entry points the API layer uses. -/
+def EngOK (e : Eng) : Prop := ∀ x ∈ e.stages, ClkOK x
+
+theorem EngOK_input {e : Eng} (h : EngOK e) (n : Nat) : EngOK (e.input n) := by
+  unfold Eng.input
+  split
+  · exact h
+  · split
+    · exact h
+    · exact addFirst_ClkOK _ _ h
+
+theorem EngOK_process {e e' : Eng} (h : EngOK e) (fuel olen : Nat) (hp : e.process fuel olen = some e') : EngOK e' :=
+  procLoop_ClkOK fuel _ _ _ _ _ h hp
+
+theorem EngOK_output {e : Eng} (h : EngOK e) (n0 : Nat) : EngOK (e.output n0).1 := h
+
+theorem EngOK_flush {e : Eng} (h : EngOK e) (owed : Nat → Nat) : EngOK (e.flush owed) := by
+  unfold Eng.flush
+  split <;> exact h
+
+/-- the calls the API layer makes on one channel's engine. -/
+inductive EngOp
+  | input (n : Nat)
+  | process (olen : Nat)
+  | output (n0 : Nat)
+  | flush
+  deriving Repr
+
+def Eng.apply (owed : Nat → Nat) (fuel : Nat) (e : Eng) : EngOp → Option Eng
+  | .input n => some (e.input n)
+  | .process olen => e.process fuel olen
+  | .output n0 => some (e.output n0).1
+  | .flush => some (e.flush owed)
+
+def Eng.runOps (owed : Nat → Nat) (fuel : Nat) : Eng → List EngOp → Option Eng
+  | e, [] => some e
+  | e, op :: ops => match e.apply owed fuel op with
+    | none => none
+    | some e' => Eng.runOps owed fuel e' ops
+
+theorem EngOK_runOps (owed : Nat → Nat) (fuel : Nat) : ∀ (ops : List EngOp) (e e' : Eng),
+    EngOK e → Eng.runOps owed fuel e ops = some e' → EngOK e' := by
+  intro ops
+  induction ops with
+  | nil => intro e e' h hr; simp only [Eng.runOps, Option.some.injEq] at hr; subst hr; exact h
+  | cons op ops ih =>
+    intro e e' h hr
+    unfold Eng.runOps at hr
+    split at hr
+    · simp at hr
+    · next e1 he1 =>
+      refine ih e1 e' ?_ hr
+      cases op with
+      | input n => simp only [Eng.apply, Option.some.injEq] at he1; subst he1; exact EngOK_input h n
+      | process olen => exact EngOK_process h fuel olen he1
+      | output n0 => simp only [Eng.apply, Option.some.injEq] at he1; subst he1; exact EngOK_output h n0
+      | flush => simp only [Eng.apply, Option.some.injEq] at he1; subst he1; exact EngOK_flush h owed
+
 /-- E2 for the constant-rate engine: `_soxr_output` never reports more than was asked
     (`n = min(min(-samples_out, n0) or n0, occupancy)`). -/
 theorem engine_output_le (e : Eng) (n0 : Nat) : (e.output n0).2.toNat ≤ n0 := by
